@@ -1,9 +1,16 @@
 package main
 
 import (
+	"bytes"
 	"encoding/json"
 	"fmt"
+	"os"
+	"os/exec"
+	"path/filepath"
 	"sort"
+	"strconv"
+	"strings"
+	"time"
 
 	"github.com/modernizing/coca/pkg/application/concept"
 	"github.com/modernizing/coca/pkg/application/count"
@@ -26,7 +33,16 @@ func statsFamily(c map[string]json.RawMessage) (interface{}, error) {
 		if pl == nil {
 			pl = string_helper.PairList{}
 		}
-		return map[string]interface{}{"pairs": pl}, nil
+		res := map[string]interface{}{"pairs": pl}
+		// the listing as the user sees it: the REAL `coca count -d deps.json [-t n]`, several times, each in a fresh process
+		if n := integer(c, "cliRuns"); n > 0 {
+			runs, err := countCli(c["clzs"], n, integer(c, "top"))
+			if err != nil {
+				res["cliError"] = err.Error()
+			}
+			res["cli"] = runs
+		}
+		return res, nil
 	case "concept":
 		pl := concept.NewConceptAnalyser().Analysis(&clzs)
 		if pl == nil {
@@ -89,4 +105,55 @@ func canonColl(x interface{}) interface{} {
 		return outl
 	}
 	return x
+}
+
+// countCli writes the model as deps.json and runs the real `coca count` n times (fresh process each); every run is returned
+// as its table rows [count, method] in printed order
+func countCli(clzs json.RawMessage, n int, top int) ([][][]string, error) {
+	work, err := os.MkdirTemp("", "cvn")
+	if err != nil {
+		return nil, err
+	}
+	defer os.RemoveAll(work)
+	deps := filepath.Join(work, "deps.json")
+	if err := os.WriteFile(deps, clzs, 0644); err != nil {
+		return nil, err
+	}
+	self, _ := os.Executable()
+	runs := [][][]string{}
+	for i := 0; i < n; i++ {
+		cmd := exec.Command(self, "__cli", "count", "-d", deps, "-t", strconv.Itoa(top))
+		cmd.Dir = work
+		var out bytes.Buffer
+		cmd.Stdout = &out
+		cmd.Stderr = &out
+		done := make(chan error, 1)
+		if err := cmd.Start(); err != nil {
+			return runs, err
+		}
+		go func() { done <- cmd.Wait() }()
+		select {
+		case err := <-done:
+			if err != nil {
+				return runs, fmt.Errorf("coca count: %v: %s", err, out.String())
+			}
+		case <-time.After(60 * time.Second):
+			cmd.Process.Kill()
+			return runs, fmt.Errorf("coca count: timeout")
+		}
+		rows := [][]string{}
+		for _, line := range strings.Split(out.String(), "\n") {
+			cells := strings.Split(line, "|")
+			if len(cells) != 4 {
+				continue
+			}
+			v, k := strings.TrimSpace(cells[1]), strings.TrimSpace(cells[2])
+			if _, err := strconv.Atoi(v); err != nil {
+				continue // header, separator
+			}
+			rows = append(rows, []string{v, k})
+		}
+		runs = append(runs, rows)
+	}
+	return runs, nil
 }
